@@ -115,6 +115,10 @@ def run(chk):
                 chk.violation("reject:accepts-invalid:default", "a document with an invalid default value is accepted (the default is used "
                               "nowhere, which the specification does not excuse)", dict(rep, defaults=m.get("defaults")))
                 continue
+            if r[0] == "ok" and kind == "symmetric.repeated-deme":
+                chk.violation("reject:accepts-invalid:symmetric-repeated-deme", "a symmetric migration that lists one deme more than once "
+                              "(a migration from a deme to itself) is accepted", dict(rep, migrations=m.get("migrations")))
+                continue
             if r[0] != mr[0]:
                 chk.disagreements += 1
                 # who is right?  ask the independent validator when it applies
